@@ -1,2 +1,114 @@
-(* placeholder until the proofs are in: keeps the check runnable while the model is validated *)
-From BWStore Require Import Store Lookup LookupSpec.
+(* C02 — every indexed lookup returns exactly what a scan of the graph would return.
+   Model: BWStore.Lookup (the ten lookups of storage/memory/memory.go + Triples(), one parametrised function);
+   Spec:  BWStore.LookupSpec.  [lookup] is the behaviour of the working tree (after fix F6: CheckGlobalTimeBounds
+   compares kinds); [lookup_v legacy] is the behaviour before the fix and is refuted below. *)
+From Coq Require Import List NArith ZArith Bool.
+Import ListNotations.
+From BWStore Require Import AMap Store StoreSpec StoreProofs Lookup LookupSpec PageProofs LookupProofs LookupMain.
+
+(* what "a predicate handed to a lookup matches a stored predicate" means *)
+Theorem C02_pmatch_meaning : forall q p,
+  pmatch q p = true <->
+  pid q = pid p /\ is_temporal q = is_temporal p /\
+  (forall a b, panchor q = Some a -> panchor p = Some b -> ns a = ns b).
+Proof.
+  intros q p. unfold pmatch, is_temporal. rewrite andb_true_iff, N.eqb_eq.
+  destruct (panchor q) as [a|]; destruct (panchor p) as [b|]; split; intros H.
+  - destruct H as [H1 H2]. apply Z.eqb_eq in H2. repeat split; auto. intros a' b' Ea Eb. inversion Ea. inversion Eb. now subst.
+  - destruct H as [H1 [_ H3]]. split; auto. apply Z.eqb_eq. now apply H3.
+  - destruct H; discriminate.
+  - destruct H as [_ [H _]]. discriminate.
+  - destruct H; discriminate.
+  - destruct H as [_ [H _]]. discriminate.
+  - destruct H. repeat split; auto. intros; discriminate.
+  - destruct H. auto.
+Qed.
+Print Assumptions C02_pmatch_meaning.
+
+(* the main statement: in every state reachable by any history over a universe on which the rank (order of
+   Triple.String()) identifies the triple, every lookup kind with every argument tuple returns, with default options,
+   exactly the projections of the stored triples whose fixed components equal the given ones, in listing order *)
+Theorem C02_lookup_is_scan : forall U ops h g q,
+  (forall a b, In a U -> In b U -> trank a = trank b -> a = b) ->
+  (forall o t, In o ops -> In t (match o with OAdd _ ts => ts | _ => [] end) -> In t U) ->
+  graph_of (run ops) h = Some g ->
+  lookup q default_lo g = LOk (map (q_proj q) (filter (matches q) (listing g))).
+Proof.
+  intros U ops h g q Hf Hw Hg. apply lookup_default_is_scan.
+  - eapply GInv_reachable; eauto.
+  - eapply rank_inj_reachable; eauto.
+Qed.
+Print Assumptions C02_lookup_is_scan.
+
+(* the same for any graph that satisfies the index invariant (C01_inv_reachable) *)
+Theorem C02_lookup_is_scan_inv : forall g q, GInv g ->
+  (forall a b, In a (listing g) -> In b (listing g) -> trank a = trank b -> a = b) ->
+  lookup q default_lo g = LOk (map (q_proj q) (filter (matches q) (listing g))).
+Proof. exact lookup_default_is_scan. Qed.
+Print Assumptions C02_lookup_is_scan_inv.
+
+(* one result per stored matching triple: the results are in bijection (by position) with the matching members of
+   the listing, and the listing holds each stored triple once *)
+Theorem C02_one_result_per_triple : forall U ops h g q l,
+  (forall a b, In a U -> In b U -> trank a = trank b -> a = b) ->
+  (forall o t, In o ops -> In t (match o with OAdd _ ts => ts | _ => [] end) -> In t U) ->
+  graph_of (run ops) h = Some g ->
+  lookup q default_lo g = LOk l ->
+  length l = length (filter (matches q) (listing g)) /\ NoDup (listing g) /\
+  (forall t, In t (listing g) <-> aget tkey_eqb (tkey_of t) (idx g) = Some t).
+Proof.
+  intros U ops h g q l Hf Hw Hg Hl.
+  rewrite (C02_lookup_is_scan U ops h g q Hf Hw Hg) in Hl. inversion Hl. subst l.
+  pose proof (GInv_reachable ops h g Hg) as HI.
+  split; [now rewrite map_length|]. split; [now apply NoDup_listing|]. intros t. now apply listing_In.
+Qed.
+Print Assumptions C02_one_result_per_triple.
+
+(* no ghosts, with ANY options: every result is the projection of a triple that is stored now and matches *)
+Theorem C02_no_ghosts : forall U ops h g q lo r,
+  (forall a b, In a U -> In b U -> trank a = trank b -> a = b) ->
+  (forall o t, In o ops -> In t (match o with OAdd _ ts => ts | _ => [] end) -> In t U) ->
+  graph_of (run ops) h = Some g ->
+  In r (results (lookup q lo g)) ->
+  exists t, r = q_proj q t /\ aget tkey_eqb (tkey_of t) (idx g) = Some t /\ matches q t = true.
+Proof.
+  intros U ops h g q lo r Hf Hw Hg. apply no_ghosts.
+  - eapply GInv_reachable; eauto.
+  - eapply rank_inj_reachable; eauto.
+Qed.
+Print Assumptions C02_no_ghosts.
+
+(* the bucket chosen by each lookup is exactly the part of the master index with those key components *)
+Theorem C02_bucket_is_projection : forall ops h g q k, graph_of (run ops) h = Some g ->
+  aget tkey_eqb k (q_bucket q g) = if kmatch q k then aget tkey_eqb k (idx g) else None.
+Proof. intros ops h g q k Hg. apply bucket_get. eapply GInv_reachable; eauto. Qed.
+Print Assumptions C02_bucket_is_projection.
+
+(* ---- before fix F6 (commit 4c0004f in /repo): the kind of the given predicate was ignored ------------------------ *)
+Definition w_temporal := {| tsub := 0; tpred := {| pid := 0; panchor := Some {| ns := 5; off := 0 |} |}; tobj := ONode 2; trank := 0 |}.
+Definition w_immutable := {| tsub := 0; tpred := {| pid := 0; panchor := None |}; tobj := ONode 3; trank := 1 |}.
+Definition w_ops := [ONew 0; OAdd 0 [w_temporal; w_immutable]].
+
+Theorem C02_unfixed_kind_refuted : exists ops h g q,
+  graph_of (run ops) h = Some g /\
+  lookup_v legacy q default_lo g <> LOk (map (q_proj q) (filter (matches q) (listing g))).
+Proof.
+  exists w_ops, 0%N. eexists. exists (QObjects 0 {| pid := 0; panchor := None |}).
+  split; [vm_compute; reflexivity|]. vm_compute. discriminate.
+Qed.
+Print Assumptions C02_unfixed_kind_refuted.
+
+(* non-vacuity: the hypotheses hold for a concrete universe and history, and the lookups distinguish the kinds *)
+Example C02_nonvacuous :
+  (forall a b, In a [w_temporal; w_immutable] -> In b [w_temporal; w_immutable] -> trank a = trank b -> a = b) /\
+  (forall o t, In o w_ops -> In t (match o with OAdd _ ts => ts | _ => [] end) -> In t [w_temporal; w_immutable]) /\
+  (forall g, graph_of (run w_ops) 0 = Some g ->
+     lookup (QObjects 0 {| pid := 0; panchor := None |}) default_lo g = LOk [RsObj (ONode 3)] /\
+     lookup (QObjects 0 {| pid := 0; panchor := Some {| ns := 5; off := 7200 |} |}) default_lo g = LOk [RsObj (ONode 2)] /\
+     lookup (QTrS 0) default_lo g = LOk [RsTriple w_temporal; RsTriple w_immutable]).
+Proof.
+  split; [|split].
+  - intros a b [Ha|[Ha|[]]] [Hb|[Hb|[]]] E; subst; auto; discriminate.
+  - intros o t [Ho|[Ho|[]]] Ht; subst; cbn in *; tauto.
+  - intros g Hg. vm_compute in Hg. inversion Hg. subst g. vm_compute. auto.
+Qed.
